@@ -595,16 +595,22 @@ def _indelfile(kv):
     from fractions import Fraction
     from write_indel_files import write_indel_file
     ins, dels = _calls(kv.get("INS", "")), _calls(kv.get("DEL", ""))
-    fd, path = tempfile.mkstemp(suffix=".txt", dir=os.environ.get("VERIF_TMP"))
-    os.close(fd)
-    try:
-        write_indel_file({"insertion": ins, "deletion": dels}, "x.xmap", path)
-        lines = [l.rstrip("\n") for l in open(path)]
-    finally:
-        os.remove(path)
+    # ONE report path per worker process, written again by every operation (the scripts have fixed default report names,
+    # a user re-runs them): the report must hold the calls of THIS run only
+    global _XROW_DIR
+    if _XROW_DIR is None or not os.path.isdir(_XROW_DIR):
+        import atexit
+        import shutil as _sh
+        _XROW_DIR = tempfile.mkdtemp(prefix="xrow", dir=os.environ.get("VERIF_TMP") or None)
+        atexit.register(_sh.rmtree, _XROW_DIR, True)
+    path = os.path.join(_XROW_DIR, "indels.txt")
+    write_indel_file({"insertion": ins, "deletion": dels}, "x.xmap", path)
+    lines = [l.rstrip("\n") for l in open(path)]
     assert lines[0] == "#x.xmap" and lines[1].startswith("#Type"), lines[:2]
     out = []
     for l in lines[2:]:
+        if l.startswith("#"):
+            continue                      # a second header block (a report that was appended to): its rows are reported as they stand
         f = l.split("\t")
         assert len(f) == 9, l
         out.append(f"{1 if f[0] == 'insertion' else 0}:{int(f[1])}:{int(f[2])}:{int(f[3])}:{f[4]}:{int(f[5])}:{int(f[6])}:{rat(Fraction(f[7]))}:{int(f[8])}")
